@@ -150,8 +150,13 @@ func (s *TemporalStore) Add(atom ast.Atom, interval ast.Interval) (bool, error) 
 		predMap[hash] = tree
 	}
 
-	// Check interval limit before inserting (negative limit means no limit)
+	// Check interval limit before inserting (negative limit means no limit).
+	// An exact duplicate would not be stored, so it is refused as a duplicate
+	// and not by the limit.
 	if s.maxIntervalsPerAtom > 0 && tree.Size() >= s.maxIntervalsPerAtom {
+		if tree.contains(interval) {
+			return false, nil
+		}
 		return false, fmt.Errorf("%w: maximum %d intervals per atom", ErrIntervalLimitExceeded, s.maxIntervalsPerAtom)
 	}
 
